@@ -293,7 +293,7 @@ let eval_av () =
 
 (* ------------------------------------------------------------------ trlate *)
 (* the extracted monitors of Model/TransportPool.v on the recorded wire journal *)
-let eval_trlate m =
+let eval_trlate ?(cut = false) m =
   let items s = if s = "." || s = "" then [] else String.split_on_char ',' s in
   let f3 x = match String.split_on_char ':' x with [a; b; c] -> (a, b, c) | _ -> failwith "journal item" in
   let reqs = List.map (fun x -> let (c, i, k) = f3 x in
@@ -305,6 +305,10 @@ let eval_trlate m =
       | [c; g] -> { jr_class = nat (hexi c); jr_got = (if g = "-" || g = "?" then None else Some (nat (hexi g))) }
       | _ -> failwith "res item") (items (get "res" m)) in
   let b v = if v then "ok" else "BAD" in
+  if cut then
+    Printf.sprintf "cut=%s deliv=%s hang=%s ids=%s fail=%s" (b (mon_cut res)) (b (mon_delivery res anss))
+      (b (mon_nohang res)) (b (mon_ids reqs)) (b (mon_fail res reqs))
+  else
   Printf.sprintf "deliv=%s ids=%s fail=%s" (b (mon_delivery res anss)) (b (mon_ids reqs)) (b (mon_fail res reqs))
 
 let eval (op : string) (a : string list) : string =
@@ -320,6 +324,7 @@ let eval (op : string) (a : string list) : string =
       (get "env" m) (get "want" m)
   | ("avopen" | "avstale"), _ -> eval_av ()
   | "trlate", _ -> eval_trlate (kv a)
+  | "trcut", _ -> eval_trlate ~cut:true (kv a)
   | ("muxbig" | "trbig"), _ -> "skip"
   | _ -> "BADCASE"
 
